@@ -125,8 +125,8 @@ PROPS.update({
 # transition matrix, s-centralities); they replace the entries above
 _NEW = {
     'C10': dict(level="exploration",
-          technique='contract-based deductive verification (AST->VC, z3) of clique_projection, line_graph and directed_line_graph (both distances, weighted or not) over an assumed networkx contract, and of the similarity kernels + bounded run-time contract checking of every projection and the simplicial complex against set-builder definitions',
-          text='clique_projection (link iff two different nodes share a hyperedge; documented vertex set), line_graph (id table a bijection onto the hyperedges; link iff different, sharing a node and similarity >= s; weight = similarity or 1) and directed_line_graph (arc e->f iff e != f and similarity of target(e) and source(f) >= s) are proved for all hypergraphs, thresholds and both distance functions, through loop invariants over the real nested loops; intersection / jaccard_similarity / jaccard_distance for all sets. networkx is modelled by an assumed contract; bipartite_projection and simplicial_complex are outside the subset. Every clause of the statement is evaluated on all small hypergraphs of a stated scope and on seeded random ones for all 12 (distance, threshold, weighted) configurations.',
+          technique='contract-based deductive verification (AST->VC, z3) of clique_projection, bipartite_projection, line_graph and directed_line_graph (both distances, weighted or not) over an assumed networkx contract, and of the similarity kernels + bounded run-time contract checking of every projection and the simplicial complex against set-builder definitions',
+          text='clique_projection (link iff two different nodes share a hyperedge; documented vertex set), line_graph (id table a bijection onto the hyperedges; link iff different, sharing a node and similarity >= s; weight = similarity or 1) and directed_line_graph (arc e->f iff e != f and similarity of target(e) and source(f) >= s) are proved for all hypergraphs, thresholds and both distance functions, through loop invariants over the real nested loops; intersection / jaccard_similarity / jaccard_distance for all sets. bipartite_projection: the id table maps the names N<i> / E<j> bijectively onto nodes / hyperedges and a hyperedge vertex is linked to a node vertex iff the node belongs to the hyperedge (vertex names as a datatype; assumed: str(i) is injective and contains no letter). networkx is modelled by an assumed contract; simplicial_complex is outside the subset. Every clause of the statement is evaluated on all small hypergraphs of a stated scope and on seeded random ones for all 12 (distance, threshold, weighted) configurations.',
           design_ref='DESIGN.md §7 C10', assumptions=['networkx Graph / DiGraph are modelled by an assumed library contract (vertex set, set of ordered pairs, weight attribute)', "the lists stored in line_graph's dict `adj` are enumerations of their bags (positions exist, are injective on duplicate-free lists); the enumeration is a function of (dict value, key)"]),
     'C12': dict(level="exploration",
           technique='contract-based deductive verification (AST->VC, z3) of in/out degree, their sequences, the exact, strong and weak reciprocity and the hyperedge signature vector + bounded run-time contract checking of all of them, also on edited objects',
@@ -145,8 +145,8 @@ _NEW = {
           text='transition_matrix is proved to return the N x N table whose entry (i, j) is wsum(i, j) divided by the row sum of the table of all wsum(i, .), wsum adding (size - 1) over the hyperedges containing both i and j, and to raise AssertionError exactly when the hypergraph is not connected (labels 0..N-1 required). The quotient is uninterpreted, so row-stochasticity, the stationary state, densities, sampled walks and the contagion are bounded exploration over all connected hypergraphs on <= 5 nodes and all initial conditions, horizons and rate triples of a stated grid.',
           design_ref='DESIGN.md §7 C18', assumptions=['numpy: np.zeros, a[i, j] += x, np.matrix, a.sum(axis=1), matrix / column, sparse.csr_matrix are modelled by an assumed library contract; the quotient is uninterpreted']),
     'C20': dict(level="exploration",
-          technique='contract-based deductive verification (AST->VC, z3) of s_betweenness / s_closeness on top of the verified line_graph, networkx centralities uninterpreted + bounded run-time contract checking of all centralities against networkx on independently built projections, expm, and eigen-equation residuals',
-          text="s_betweenness and s_closeness are proved to return exactly one value per hyperedge, namely networkx's betweenness / closeness of the vertex that the (verified) s-line graph's id table assigns to it. The node versions (bipartite projection), the temporal averages, the sub-hypergraph centrality and CEC / HEC are floating point and networkx delegation: bounded exploration; CEC/HEC are judged only where an independent long-run iteration converges.",
+          technique='contract-based deductive verification (AST->VC, z3) of s_betweenness / s_closeness / s_betweenness_nodes / s_closeness_nodes on top of the verified line_graph and bipartite_projection, networkx centralities uninterpreted + bounded run-time contract checking of all centralities against networkx on independently built projections, expm, and eigen-equation residuals',
+          text="s_betweenness and s_closeness are proved to return exactly one value per hyperedge, namely networkx's betweenness / closeness of the vertex that the (verified) s-line graph's id table assigns to it. s_betweenness_nodes / s_closeness_nodes are proved to return exactly one value per node, the centrality of its vertex N<i> in the (verified) bipartite projection. The temporal averages, the sub-hypergraph centrality and CEC / HEC are floating point and networkx delegation: bounded exploration; CEC/HEC are judged only where an independent long-run iteration converges.",
           design_ref='DESIGN.md §7 C20', assumptions=['nx.betweenness_centrality / nx.closeness_centrality are uninterpreted functions of the graph; networkx graphs by the assumed contract of C10']),
 }
 PROPS.update(_NEW)
